@@ -422,7 +422,8 @@ class SecopClient(ProxyClient):
             request = entry[0]
             reply_action = REQUEST2REPLY.get(request[0], None)
             if reply_action:
-                key = (reply_action, request[1])  # action and identifier
+                # action and identifier ('.' is the same as no identifier, see __rxthread)
+                key = (reply_action, None if request[1] == '.' else request[1])
             else:  # allow experimental unknown requests, but only one at a time
                 key = None
             if key in self.active_requests:
